@@ -355,7 +355,7 @@ structure MOk (h : List Ev) (m : Mess) : Prop where
 
 structure Link (h : List Ev) (s : MQ) : Prop where
   len : s.next = h.length
-  q : ∀ m ∈ s.queue, MOk h m ∧ m.delivered = none
+  q : ∀ m ∈ s.queue, MOk h m ∧ m.delivered = none ∧ m.copied = false
   f : ∀ m ∈ s.fin, MOk h m
 
 theorem MOk.lift {h : List Ev} {m : Mess} (e : Ev) (hm : MOk h m) : MOk (h ++ [e]) m := by
@@ -382,7 +382,7 @@ theorem link_iput {h : List Ev} {s : MQ} (hi : Inv s) (hl : Link h s) (a pl : Na
       rcases hm with hm | hm
       · exact ⟨(hl.q m hm).1.lift _, (hl.q m hm).2⟩
       · subst hm
-        refine ⟨⟨?_, ?_, ?_⟩, rfl⟩
+        refine ⟨⟨?_, ?_, ?_⟩, rfl, rfl⟩
         · intro p hp; simp only [Option.some.injEq] at hp; subst hp
           exact ⟨a, pl, det, hnew, rfl, rfl⟩
         · intro g hg; simp at hg
@@ -393,7 +393,7 @@ theorem link_iput {h : List Ev} {s : MQ} (hi : Inv s) (hl : Link h s) (a pl : Na
     have hgm : g ∈ s.queue := by rw [hq]; simp
     have hrest : ∀ x ∈ rest, x ∈ s.queue := by intro x hx; rw [hq]; simp [hx]
     have hgev := hi.qget g hgm hgt
-    obtain ⟨hgok, hgd⟩ := hl.q g hgm
+    obtain ⟨hgok, hgd, hgc⟩ := hl.q g hgm
     constructor
     · simp [hl.len]
     · intro m hm; exact ⟨(hl.q m (hrest m hm)).1.lift _, (hl.q m (hrest m hm)).2⟩
@@ -419,7 +419,7 @@ theorem link_iput {h : List Ev} {s : MQ} (hi : Inv s) (hl : Link h s) (a pl : Na
             simp at hb
             simp [hgev.1]
           · rename_i hb
-            simp at hb
+            simp [hgc] at hb
             simp [hgev.1, hgd, hb]
       · exact (hl.f m hm).lift _
 
@@ -435,7 +435,7 @@ theorem link_iget {h : List Ev} {s : MQ} (hi : Inv s) (hl : Link h s) (a : Nat) 
       rcases hm with hm | hm
       · exact ⟨(hl.q m hm).1.lift _, (hl.q m hm).2⟩
       · subst hm
-        refine ⟨⟨?_, ?_, ?_⟩, rfl⟩
+        refine ⟨⟨?_, ?_, ?_⟩, rfl, rfl⟩
         · intro p hp; simp at hp
         · intro g hg; simp only [Option.some.injEq] at hg; subst hg
           exact ⟨a, buf, hnew, rfl, rfl⟩
@@ -446,7 +446,7 @@ theorem link_iget {h : List Ev} {s : MQ} (hi : Inv s) (hl : Link h s) (a : Nat) 
     have hpm : p ∈ s.queue := by rw [hq]; simp
     have hrest : ∀ x ∈ rest, x ∈ s.queue := by intro x hx; rw [hq]; simp [hx]
     have hpev := hi.qput p hpm hpt
-    obtain ⟨hpok, hpd⟩ := hl.q p hpm
+    obtain ⟨hpok, hpd, hpc⟩ := hl.q p hpm
     obtain ⟨sa, spl, sdet, _, hppl, _⟩ := hpok.put p.id hpev.1
     constructor
     · simp [hl.len]
@@ -473,7 +473,7 @@ theorem link_iget {h : List Ev} {s : MQ} (hi : Inv s) (hl : Link h s) (a : Nat) 
             simp at hb
             simp [hpev.1, hppl]
           · rename_i hb
-            simp [hppl] at hb
+            simp [hppl, hpc] at hb
             simp [hpev.1, hpd, hb, hppl]
       · exact (hl.f m hm).lift _
 
@@ -492,7 +492,7 @@ theorem link_cancel {h : List Ev} {s : MQ} (_hi : Inv s) (hl : Link h s) (id : N
       simp only [List.mem_cons] at hx
       rcases hx with hx | hx
       · subst hx
-        obtain ⟨hok, hd⟩ := hl.q m hm
+        obtain ⟨hok, hd, _⟩ := hl.q m hm
         have hok' := hok.lift (Ev.cancel id)
         refine ⟨hok'.put, hok'.get, ?_⟩
         simp [DelivOk, hd]
@@ -573,16 +573,50 @@ theorem pairs_complete {s : MQ} {m : Mess} (hm : m ∈ s.fin) (hd : m.state = .d
 
 /-! ### how many times the getter's buffer is written -/
 
-def WOk (s : MQ) : Prop := (∀ m ∈ s.queue, m.writes = 0) ∧ (∀ m ∈ s.fin, m.writes ≤ 1)
+/-- what holds of an object that left the queue: `writes` is 1 exactly when `dst_buff_` was reset after the copy, and a
+DONE object with a payload and a buffer has been copied (so `finish()` running again finds `dst_buff_ == nullptr`) -/
+def FinOk (m : Mess) : Prop :=
+  (m.copied = false → m.writes = 0) ∧ (m.copied = true → m.writes = 1) ∧
+  (m.state = .done → m.payload.isSome = true → m.hasBuf = true → m.copied = true)
 
-theorem finish_writes (m : Mess) : m.finish.writes ≤ m.writes + 1 := by
-  unfold Mess.finish
+def WOk (s : MQ) : Prop := (∀ m ∈ s.queue, m.writes = 0 ∧ m.copied = false) ∧ (∀ m ∈ s.fin, FinOk m)
+
+theorem finish_finOk (m : Mess) (hw : m.writes = 0) (hc : m.copied = false) : FinOk m.finish := by
+  unfold Mess.finish FinOk
   simp only []
-  split <;> simp
+  split
+  · simp [hw]
+  · rename_i hb
+    simp only [hc, Bool.not_false, Bool.and_true, Bool.and_eq_true, not_and, Bool.not_eq_true] at hb
+    refine ⟨fun _ => hw, ?_, ?_⟩
+    · intro h; simp only [hc] at h; cases h
+    · intro _ hp hbuf; simp only at hp hbuf; rw [hb hp] at hbuf; cases hbuf
 
-theorem wok_step {s : MQ} (hw : WOk s) (e : Ev) (he : ∀ id, e ≠ Ev.refinish id) : WOk (step s e) := by
+theorem refinish_eq {m : Mess} (hm : FinOk m) : m.refinish = m := by
+  unfold Mess.refinish
+  split
+  · rename_i hb
+    simp only [Bool.and_eq_true, decide_eq_true_eq, Bool.not_eq_true'] at hb
+    have := hm.2.2 hb.1.1.1 hb.1.1.2 hb.1.2
+    rw [this] at hb; cases hb.2
+  · rfl
+
+theorem refinish_fin {s : MQ} (hw : WOk s) (id : Nat) : (refinish s id).fin = s.fin := by
+  unfold refinish
+  simp only
+  conv => rhs; rw [← List.map_id s.fin]
+  apply List.map_congr_left
+  intro m hm
+  split
+  · exact refinish_eq (hw.2 m hm)
+  · rfl
+
+theorem wok_step {s : MQ} (hw : WOk s) (e : Ev) : WOk (step s e) := by
   cases e with
-  | refinish id => exact absurd rfl (he id)
+  | refinish id =>
+    refine ⟨hw.1, ?_⟩
+    show ∀ m ∈ (refinish s id).fin, FinOk m
+    rw [refinish_fin hw id]; exact hw.2
   | cancel id =>
     simp only [step, cancel]
     split
@@ -592,7 +626,11 @@ theorem wok_step {s : MQ} (hw : WOk s) (e : Ev) (he : ∀ id, e ≠ Ev.refinish 
       intro x hx
       simp only [List.mem_cons] at hx
       rcases hx with hx | hx
-      · subst hx; simp [hw.1 m hm]
+      · subst hx
+        have h0 := hw.1 m hm
+        refine ⟨fun _ => h0.1, ?_, ?_⟩
+        · intro h; simp only [h0.2] at h; cases h
+        · intro h; simp at h
       · exact hw.2 x hx
     · exact hw
   | iput a pl det =>
@@ -603,7 +641,7 @@ theorem wok_step {s : MQ} (hw : WOk s) (e : Ev) (he : ∀ id, e ≠ Ev.refinish 
       simp only [List.mem_append, List.mem_singleton] at hx
       rcases hx with hx | hx
       · exact hw.1 x hx
-      · subst hx; rfl
+      · subst hx; exact ⟨rfl, rfl⟩
     · rename_i g rest hf
       obtain ⟨pre, post, e1, e2, _, _⟩ := findMatching_some hf
       have hg : g ∈ s.queue := by rw [e1]; simp
@@ -612,10 +650,7 @@ theorem wok_step {s : MQ} (hw : WOk s) (e : Ev) (he : ∀ id, e ≠ Ev.refinish 
       simp only [List.mem_cons] at hx
       rcases hx with hx | hx
       · subst hx
-        have := finish_writes { g with src := some a, payload := some pl, detached := g.detached || det, putEv := some s.next }
-        have h0 := hw.1 g hg
-        simp only at this
-        omega
+        exact finish_finOk _ (hw.1 g hg).1 (hw.1 g hg).2
       · exact hw.2 x hx
   | iget a buf =>
     simp only [step, iget]
@@ -625,7 +660,7 @@ theorem wok_step {s : MQ} (hw : WOk s) (e : Ev) (he : ∀ id, e ≠ Ev.refinish 
       simp only [List.mem_append, List.mem_singleton] at hx
       rcases hx with hx | hx
       · exact hw.1 x hx
-      · subst hx; rfl
+      · subst hx; exact ⟨rfl, rfl⟩
     · rename_i p rest hf
       obtain ⟨pre, post, e1, e2, _, _⟩ := findMatching_some hf
       have hp : p ∈ s.queue := by rw [e1]; simp
@@ -634,17 +669,19 @@ theorem wok_step {s : MQ} (hw : WOk s) (e : Ev) (he : ∀ id, e ≠ Ev.refinish 
       simp only [List.mem_cons] at hx
       rcases hx with hx | hx
       · subst hx
-        have := finish_writes { p with dst := some a, hasBuf := buf, getEv := some s.next }
-        have h0 := hw.1 p hp
-        simp only at this
-        omega
+        exact finish_finOk _ (hw.1 p hp).1 (hw.1 p hp).2
       · exact hw.2 x hx
 
-theorem wok_foldl (h : List Ev) (hh : ∀ e ∈ h, ∀ id, e ≠ Ev.refinish id) : ∀ s, WOk s → WOk (h.foldl step s) := by
+theorem wok_foldl (h : List Ev) : ∀ s, WOk s → WOk (h.foldl step s) := by
   induction h with
   | nil => intro s hs; exact hs
-  | cons e es ih =>
-    intro s hs
-    exact ih (fun x hx => hh x (by simp [hx])) _ (wok_step hs e (hh e (by simp)))
+  | cons e es ih => intro s hs; exact ih _ (wok_step hs e)
+
+theorem wok_run (h : List Ev) : WOk (run h) := wok_foldl h {} ⟨by simp, by simp⟩
+
+theorem FinOk.writes_le {m : Mess} (hm : FinOk m) : m.writes ≤ 1 := by
+  cases hc : m.copied with
+  | false => rw [hm.1 hc]; exact Nat.zero_le 1
+  | true => rw [hm.2.1 hc]; exact Nat.le_refl 1
 
 end SgVerif.C09
